@@ -225,7 +225,10 @@ CLAIMED["C05"] = dict(
          "Circuit::validate, have input_gates equal to the sizes of the parameter types (one party per element for a single "
          "array parameter), 161 + size(return type) outputs, and return Val.encode of the value the source semantics compute; "
          "a second stream uses types of 0 bits (two recorded findings); every corpus program that compiles must validate as "
-         "SSA and as register circuit.",
+         "SSA and as register circuit; a fourth stream compiles programs whose array sizes, trip counts and parties come from "
+         "constants (external values, constant expressions, [x; N], [7; N] with a number without a suffix in a typed position) "
+         "with generated constant values: accepted, no compiler panic, valid, input parties and output width as the types with "
+         "the sizes filled in require.",
     design_ref="DESIGN.md §6 C05",
     note="trusted: Lean kernel; Model/Value.lean encode/decode tied to literal.rs by C09's correspondence; the generator's notion "
          "of `well-typed` is its own (type-directed construction), checked against /repo by acceptance",
@@ -236,7 +239,9 @@ CLAIMED["C13"] = dict(
     text="Lean theorems about Src.joinPairs, the pairs a for-join loop visits in the source semantics: C13_visits - in the order "
          "of the first array, exactly those of its elements for which the second array has an element with an equal key, each "
          "once, paired with that element; C13_partner_sound / _complete / _unique - the partner has an equal key, none is missed, "
-         "and with pairwise different keys (strictly sorted input) it is the only one; C13_loop_is_body_per_pair - the statement "
+         "and with pairwise different keys (strictly sorted input) it is the only one; C13_visits_in_order / C13_ascending - the visited elements "
+         "of the first array are a sub-sequence of it, so whatever order its keys are in (strictly ascending, for sorted input) "
+         "is the order of the visits; C13_loop_is_body_per_pair - the statement "
          "is the ordinary loop over these pairs, so effects and panics happen for these pairs only, in this order. PARTIAL: the "
          "bitonic merge network of compile.rs and the join built-in are not modelled. They are explored: generated programs "
          "around a join_iter loop (all unsigned key types, pairs, [u8; k], 1..6 elements, destructuring patterns, bodies that "
@@ -261,7 +266,7 @@ CLAIMED["C12"] = dict(
          "program TEXT in which the values are written out (parser, inference of unsuffixed numbers, compile_with_constants' "
          "own bookkeeping of sizes and missing / mistyped constants) is explored: programs whose array sizes, trip counts, repeat sizes and number of parties come from usize constants, and "
          "generated programs in which literals are replaced by constants of every type (external values of 3 parties, nested "
-         "min/max/+/-, references to earlier constants) are compiled with the constants supplied and, independently, from the "
+         "min/max/+/-, references to earlier constants, also as arguments of min / max; negative signed constants) are compiled with the constants supplied and, independently, from the "
          "text with the values written out: same input parties, same outputs; then constants are left out or supplied with "
          "another type: an error naming them, never a panic; the circuits compiled with constants are also compared with "
          "Bit.bitBody on the syntax tree that refers to the constants (ties C12_program to compile_with_constants).",
@@ -282,15 +287,22 @@ CLAIMED["C17"] = dict(
          "variants, functions, types, assignment to immutable bindings, argument / field / tuple counts, refutable patterns in "
          "let / for, non-exhaustive matches, loops over non-arrays, direct / mutual recursion, unused private functions, pub fn "
          "without parameters, duplicate parameters, mistyped constants); every mutant must be rejected with a type error, the "
-         "prelude alone must be accepted.",
+         "prelude alone must be accepted. Second stream, with the MODEL as the oracle: programs of the modelled fragment are "
+         "mutated without an expectation (one expression site generated with another type than its context asks for; one token "
+         "replaced: an identifier by another identifier or an unbound one, a number's suffix, a type annotation, a binary "
+         "operator, a tuple index, a cast target, a dropped `mut`); whatever check.rs accepts is translated from check.rs' own "
+         "typed tree (harness op typed_ast) and must be typed by Bit.progTyped, the typing judgement the compiler model induces "
+         "(theorem C01_core_defined: a program it accepts never gets stuck); an accepted program it rejects is reported, with an "
+         "input on which the source semantics get stuck when one is found.",
     design_ref="DESIGN.md §6 C17",
-    note="trusted: Lean kernel; the list of rule-breaking shapes is hand-written (tools/gv/c17.py), one violation per program",
-    technique="Lean 4 proof (rule violations are stuck in the semantics) + mutation testing of the type checker",
+    note="trusted: Lean kernel; the list of rule-breaking shapes is hand-written (tools/gv/c17.py), one violation per program; "
+         "the translation of check.rs' typed tree (harness/src/tast.rs), compared with the generator's own tree on every program",
+    technique="Lean 4 proof (rule violations are stuck in the semantics; programs typed by the compiler model are never stuck) + mutation testing of the type checker with a fixed list and with the model as the oracle",
 )
 
 CLAIMED["C01"] = dict(
     text="Lean theorems C01_core / C01_core_expr / C01_core_defined (Props/C01.lean): for the core fragment - Booleans and "
-         "integers of EVERY width with all their operators (!, unary -, + - * / %, << >>, < > <= >= == !=, & | ^, && ||, `as`), "
+         "integers of EVERY width with all their operators (! on Booleans and integers, unary -, + - * / %, << >>, < > <= >= == !=, & | ^, && ||, `as`), "
          "tuples, structs, enums and arrays nested to any depth (literals, t.i, s.f, [e; n], lo..hi, a[i] with its bounds check), if/else "
          "as expression and as statement, match on Booleans, integers, tuples, structs and enums with literal, range, binding, tuple, "
          "struct and enum patterns (arms covering the type: last arm a binding or `_`, or exhaustive by the verified reference procedure "
@@ -314,7 +326,10 @@ CLAIMED["C01"] = dict(
          "and for the step from Bit.bitStmts to real gates, the property is explored: generated programs (the generator "
          "builds the syntax tree itself) are compiled as SSA and register circuit with and without de-duplication and compared "
          "with the Lean source semantics on 6 argument tuples each; programs of the fragment are additionally run through "
-         "Bit.bitStmts, which must agree with the real circuit bit for bit.",
+         "Bit.bitStmts, which must agree with the real circuit bit for bit. A third stream takes the tree check.rs ITSELF "
+         "builds for a program (harness op typed_ast: operand types, cast sources and literal types as the checker inferred "
+         "them) and runs it through Src.evalStmts and Bit.bitBody: generated programs of the whole language and the "
+         "hand-written programs of the repository's tests and examples (88 of them translate) on random inputs.",
     design_ref="DESIGN.md §6 C01",
     note="trusted: Lean kernel; Model/SrcSem.lean is the hand-written specification; Model/BitSem.lean is tied to compile.rs by "
          "the correspondence on core-fragment programs, Model/Arith.lean to CircuitBuilder by C03/C04; eval() and the register "
